@@ -469,7 +469,7 @@ SPECS['C13'] = {
     'selftests': ['venv:vf.stubs.selftest:selftest_npvalues'],
     'obligations': _pair('c13', 'spacing', (300, 600), '6 integer dtypes x 1..3 rows x all values of the dtype x both tolerance outcomes',
                          ['FrameItem._compute_spacing_and_direction'], replay=D + 'replay_spacing', validate=D + 'replay_spacing', shards=(6, 6))
-    + _pair('c13', 'spacing_tol', (400, 1500), 'the near-uniform tolerance (1 - d/median)**2 < 0.001 in exact rational arithmetic (squares kept lazy: |q| against an enclosure of sqrt(0.001)): 6 integer dtypes x 3..4 rows x all values of the dtype; nothing asserted for |1 - d/median| in [0.031, 0.032]',
+    + _pair('c13', 'spacing_tol', (800, 2400), 'the near-uniform tolerance (1 - d/median)**2 < 0.001 in exact rational arithmetic (squares kept lazy: |q| against an enclosure of sqrt(0.001)): 6 integer dtypes x 3..4 rows x all values of the dtype; nothing asserted for |1 - d/median| in [0.031, 0.032]',
             ['FrameItem._compute_spacing_and_direction'], replay=D + 'replay_spacing', shards=(6, 6))
     + [dict(fn=H + 'c13.wit_spacing_unsigned_decreasing', kind='witness', timeout=(60, 60), validate=D + 'replay_spacing')]
     + _pair('c13', 'params', (300, 600), 'index type given or not x user-supplied min/max/spacing/direction or not x uniform or not x 1..4 rows x mode',
